@@ -205,6 +205,38 @@ def structural_faults(rnd, gt, sp):
                 ns[j][1]["uuid"] = ns[i][1]["uuid"]
             out.append(("dup-uuid:pair:%s=%s%s" % (
                 n0[j][0], n0[i][0], ":later" if j > i else ":earlier"), ed))
+    # one UUID used three times: a same-kind duplicate in another module
+    # (accepted: the node is reused and moved) combined with a different
+    # kind in that module - two faults whose handling interacts
+    if len(n0) >= 3 and len(d0["modules"]) >= 2:
+        def module_of(idx, d=d0):
+            mi = -1
+            for q, (k, n) in enumerate(n0[:idx + 1]):
+                if k == "module":
+                    mi += 1
+            return mi
+        for _ in range(6):
+            i = rnd.randrange(1, len(n0))
+            same = [j for j in range(len(n0)) if j != i and
+                    n0[j][0] == n0[i][0] and n0[i][0] not in ("ir", "module")
+                    and module_of(j) != module_of(i)]
+            if not same:
+                continue
+            j = rnd.choice(same)
+            later = max(i, j)
+            inmod = [k for k in range(len(n0)) if k not in (i, j) and
+                     module_of(k) == module_of(later) and
+                     n0[k][0] not in ("ir", "module")]
+            if not inmod:
+                continue
+            k = rnd.choice(inmod)
+
+            def ed3(d, i=i, j=j, k=k):
+                ns = all_nodes(d)
+                ns[j][1]["uuid"] = ns[i][1]["uuid"]
+                ns[k][1]["uuid"] = ns[i][1]["uuid"]
+            out.append(("dup-uuid:triple:%s,%s,%s" % (
+                n0[i][0], n0[j][0], n0[k][0]), ed3))
     # unknown enum numbers
     add("enum:isa", mods, lambda d: d["modules"][0].__setitem__("isa", 77))
     add("enum:file_format", mods, lambda d: d["modules"][0].__setitem__(
@@ -279,6 +311,21 @@ def structural_faults(rnd, gt, sp):
                 k, container, key, _m = reference_sites(d)[idx]
                 container[key] = new
             out.append((name, ed))
+    # two independent structural faults in one file
+    singles = [(n, e) for n, e in out if not n.startswith("message-version")]
+    for _ in range(4):
+        if len(singles) < 2:
+            break
+        (na, ea), (nb, eb) = rnd.sample(singles, 2)
+
+        def both(d, ea=ea, eb=eb):
+            ea(d)
+            try:
+                eb(d)
+            except (IndexError, KeyError, TypeError):
+                pass
+        out.append(("double:%s+%s" % (na.split(":")[0], nb.split(":")[0]),
+                    both))
     return out
 
 
